@@ -247,12 +247,16 @@ class Disk:
                     raise
                 continue
 
-            with writer:
-                size = 0
-                for chunk in iterator:
-                    size += len(chunk)
-                    writer.write(chunk)
-                return size
+            try:
+                with writer:
+                    size = 0
+                    for chunk in iterator:
+                        size += len(chunk)
+                        writer.write(chunk)
+                    return size
+            except BaseException:
+                self.remove(full_path)  # Do not leave a partial file.
+                raise
 
     def fetch(self, mode, filename, value, read):
         """Convert fields `mode`, `filename`, and `value` from Cache table to
